@@ -486,11 +486,31 @@ def check_first_entry_widening(ctx, facts, fn_name="batch_read_for_topic", rid="
     P = facts.const_val("config::PREFIX_META_SIZE")
     n = 0
 
-    def cmp_why(T):
+    def fit_edge_ok(T, edge):
+        """the room test `cursor + header <= used` (in any spelling): the bypass edge may be taken only when the header really does
+        not fit - slack d = used - cursor - header < 0.  Evaluated at d = -1, 0, 1; an edge that is also taken at d = 0 turns
+        away a header that ends exactly at `used` (an empty entry that is the last of its block)"""
+        if edge is None:
+            return True
+        ea, eb = show(strip_refs(expr(b, T.a)), 6), show(strip_refs(expr(b, T.b)), 6)
+        used_left = ".used" in ea
+        opf = {"Lt": lambda x, y: x < y, "Le": lambda x, y: x <= y, "Gt": lambda x, y: x > y, "Ge": lambda x, y: x >= y, "Eq": lambda x, y: x == y, "Ne": lambda x, y: x != y}.get(T.op)
+        if opf is None:
+            return False
+        on_true = (edge == T.true_edge)
+
+        def taken(d):
+            c = opf(d, 0) if used_left else opf(0, d)
+            return c if on_true else not c
+        return taken(-1) and not taken(0) and not taken(1)
+
+    def cmp_why(T, edge=None):
         if T is None or T.kind != "cmp":
             return None
         ea, eb = show(strip_refs(expr(b, T.a)), 6), show(strip_refs(expr(b, T.b)), 6)
         if ".used" in ea + eb and str(P) in ea + eb:
+            if not fit_edge_ok(T, edge):
+                return None
             return "header does not fit into the block's used bytes"
         if "BitOr(" in ea and (const_of(b, T.b) == 0 or eb in ("Sub(%d, 2)" % P, str(P - 2))):
             return "invalid header length"
@@ -549,7 +569,7 @@ def check_first_entry_widening(ctx, facts, fn_name="batch_read_for_topic", rid="
                 reasons = []
                 for site in nd:
                     Tg, eg = innermost_guard(site.bb)
-                    r_ = cmp_why(Tg)
+                    r_ = cmp_why(Tg, eg)
                     if r_ is None and Tg is not None and Tg.kind == "discr":
                         dsrc, _, _ = origins(b, {"k": "copy", "place": Tg.place}, follow_all_calls=True)
                         if any(o.kind == "call" and re.search(r"::deserialize$", strip_generics(o.what)) for o in dsrc):
@@ -573,7 +593,8 @@ def check_first_entry_widening(ctx, facts, fn_name="batch_read_for_topic", rid="
         elif T is not None and T.kind == "cmp":
             ea, eb = show(strip_refs(expr(b, T.a)), 6), show(strip_refs(expr(b, T.b)), 6)
             if ".used" in ea + eb and str(P) in ea + eb:
-                why = "header does not fit into the block's used bytes"
+                if fit_edge_ok(T, e):
+                    why = "header does not fit into the block's used bytes"
             elif "BitOr(" in ea and (const_of(b, T.b) == 0 or eb in ("Sub(%d, 2)" % P, str(P - 2))):
                 why = "invalid header length"
         elif T is not None and T.kind == "discr":
